@@ -30,15 +30,33 @@ def decode_sites(cx, fn):
 # ---------------------------------------------------------------------------
 # C01 / C16: layout refusals and the two decode call sites
 
+def init_locals(cx, fn, sites):
+    """Local names of FCSFile.__init__ read off the decode call site: bit widths, ranges, endianness, $PAR."""
+    out = {}
+    for k in ('param_bit_widths', 'param_ranges', 'big_endian'):
+        v = kwarg(sites[0], k)
+        cx.need(isinstance(v, ast.Name), INIT + ': decode argument %s is not a local name' % k)
+        out[k] = v.id
+    pat = sym.parse_pattern("PBW = [int(self._text['$P{0}B'.format(P)]) for P in range(1, D + 1)]", sym.Normalizer(keep_casts=True))
+    d = None
+    for a in fn.stmts(ast.Assign):
+        b = sym.unify(pat, sym.stmt_nf(a, sym.Normalizer(keep_casts=True)), {'PBW': ('var', out['param_bit_widths'])}, {'PBW', 'P', 'D'})
+        if b is not None:
+            d = b['D'][1]
+    out['D'] = d or 'D'
+    return out
+
+
 def layout_refusals(cx):
     fn = Fn(cx, INIT)
     sites = decode_sites(cx, fn)
+    L = init_locals(cx, fn, sites)
     specs = [
         ('histogram mode ($MODE other than L) is refused', "self._text['$MODE'] != 'L'", None),
         ('data types other than I, F, D are refused', "self._text['$DATATYPE'] not in ('I', 'F', 'D')", None),
         ('byte orders other than 4,3,2,1 / 2,1 / 1,2,3,4 / 1,2 are refused',
          "self._text['$BYTEORD'] not in ('4,3,2,1', '2,1', '1,2,3,4', '1,2')", None),
-        ('integer parameters that are not byte aligned are refused', "not all(bw % 8 == 0 for bw in param_bit_widths)",
+        ('integer parameters that are not byte aligned are refused', "not all(bw %% 8 == 0 for bw in %s)" % L['param_bit_widths'],
          "self._text['$DATATYPE'] == 'I'"),
     ]
     for inst, test, enabling in specs:
@@ -58,7 +76,7 @@ def layout_refusals(cx):
         fn.ob('GUARD', inst + ' (NotImplementedError) before any decoding', ok, gs[0][0] if gs else fn.ast,
               detail='' if ok else 'no dominating refusal of the form `%s`' % test, key=inst)
     # endianness derived from the same keyword the guard tested
-    be = [st for st in fn.stmts(ast.Assign) if isinstance(st.targets[0], ast.Name) and st.targets[0].id == 'big_endian']
+    be = [st for st in fn.stmts(ast.Assign) if isinstance(st.targets[0], ast.Name) and st.targets[0].id == L['big_endian']]
     ok = len(be) == 1 and sym.norm(be[0].value) == sym.norm("self._text['$BYTEORD'] in ('4,3,2,1', '2,1')")
     fn.ob('FORMULA', 'big-endian iff $BYTEORD is 4,3,2,1 or 2,1', ok, be[0] if be else fn.ast, key='big-endian')
     return fn, sites
@@ -67,6 +85,7 @@ def layout_refusals(cx):
 def decode_callargs(cx):
     fn = Fn(cx, INIT)
     sites = decode_sites(cx, fn)
+    L = init_locals(cx, fn, sites)
     common = ['buf', 'datatype', 'num_events', 'param_bit_widths', 'param_ranges', 'big_endian']
     kws = [{k.arg: k.value for k in s.keywords} for s in sites]
     ok = all(not s.args for s in sites) and all(set(k) == set(common) | {'begin', 'end'} for k in kws)
@@ -79,18 +98,18 @@ def decode_callargs(cx):
               detail='' if same else '%s vs %s' % (ast.unparse(kws[0][a]), ast.unparse(kws[1][a])), key='agree-' + a)
     want = {
         'datatype': "self._text['$DATATYPE']", 'num_events': "int(self._text['$TOT'])",
-        'param_bit_widths': 'param_bit_widths', 'param_ranges': 'param_ranges', 'big_endian': 'big_endian',
+        'param_bit_widths': L['param_bit_widths'], 'param_ranges': L['param_ranges'], 'big_endian': L['big_endian'],
     }
     for a, w in want.items():
         ok = sym.norm(kws[0][a], keep_casts=True) == sym.norm(w, keep_casts=True)
         fn.ob('CALLARGS', 'decode argument %s is %s' % (a, w), ok, kws[0][a], key='value-' + a)
     # definitions of the per-parameter lists
-    for nm, spec in (('param_bit_widths', "[int(self._text['$P{0}B'.format(p)]) for p in range(1, D + 1)]"),
-                     ('param_ranges', "[float(self._text['$P{0}R'.format(p)]) for p in range(1, D + 1)]")):
-        d = [st for st in fn.stmts(ast.Assign) if isinstance(st.targets[0], ast.Name) and st.targets[0].id == nm]
+    for nm, spec in (('param_bit_widths', "[int(self._text['$P{0}B'.format(p)]) for p in range(1, %s + 1)]" % L['D']),
+                     ('param_ranges', "[float(self._text['$P{0}R'.format(p)]) for p in range(1, %s + 1)]" % L['D'])):
+        d = [st for st in fn.stmts(ast.Assign) if isinstance(st.targets[0], ast.Name) and st.targets[0].id == L[nm]]
         ok = len(d) == 1 and sym.norm(d[0].value, keep_casts=True) == sym.norm(spec, keep_casts=True)
         fn.ob('FORMULA', '%s lists $PnB / $PnR of parameters 1..$PAR in order' % nm, ok, d[0] if d else fn.ast, key='def-' + nm)
-    d = [st for st in fn.stmts(ast.Assign) if isinstance(st.targets[0], ast.Name) and st.targets[0].id == 'D']
+    d = [st for st in fn.stmts(ast.Assign) if isinstance(st.targets[0], ast.Name) and st.targets[0].id == L['D']]
     ok = len(d) == 1 and sym.norm(d[0].value, keep_casts=True) == sym.norm("int(self._text['$PAR'])", keep_casts=True)
     fn.ob('FORMULA', 'the parameter count is $PAR', ok, d[0] if d else fn.ast, key='def-D')
     # placement of offsets
